@@ -570,6 +570,7 @@ fn execute(p: &Programs, n_calls: &mut u64, probes: &mut FxHashMap<&'static str,
         // perform the call; `expect_key` is the structural key the result must have
         // (None: documented normalisation returning the operand, or no expression result)
         let mut expect_same_as: Option<ExprRef> = None;
+        let via_builder = crate::rng::fnv1a(format!("{call:?}@{}", pcs[c]).as_bytes()) % 3 == 0;
         let out: Option<ExprRef> = match call {
             Call::Sym(name, ty, route) => Some(match (ty, route % 2) {
                 (Ty::Bv(w), 0) => ctx.bv_symbol(name, *w),
@@ -590,6 +591,58 @@ fn execute(p: &Programs, n_calls: &mut u64, probes: &mut FxHashMap<&'static str,
                 }
             }),
             Call::Lit(bits, route) => Some(build_literal(&mut ctx, bits, *route)),
+            // a third of the operator calls go through `Context::build` (the `Builder` wrapper,
+            // a second public route to every constructor): same structure, so same reference
+            Call::Un(op, a) if via_builder => {
+                let x = arg(*a);
+                Some(ctx.build(|b| match *op {
+                    "not" => b.not(x),
+                    _ => b.negate(x),
+                }))
+            }
+            Call::Bin(op, a, b) if via_builder => {
+                let (x, y) = (arg(*a), arg(*b));
+                Some(ctx.build(|c| match *op {
+                    "and" => c.and(x, y),
+                    "or" => c.or(x, y),
+                    "xor" => c.xor(x, y),
+                    "add" => c.add(x, y),
+                    "sub" => c.sub(x, y),
+                    "mul" => c.mul(x, y),
+                    "div" => c.div(x, y),
+                    "signed_div" => c.signed_div(x, y),
+                    "signed_mod" => c.signed_mod(x, y),
+                    "signed_remainder" => c.signed_remainder(x, y),
+                    "remainder" => c.remainder(x, y),
+                    "shift_left" => c.shift_left(x, y),
+                    "shift_right" => c.shift_right(x, y),
+                    "arithmetic_shift_right" => c.arithmetic_shift_right(x, y),
+                    "equal" => c.equal(x, y),
+                    "greater" => c.greater(x, y),
+                    "greater_signed" => c.greater_signed(x, y),
+                    "greater_or_equal" => c.greater_or_equal(x, y),
+                    "greater_or_equal_signed" => c.greater_or_equal_signed(x, y),
+                    "concat" => c.concat(x, y),
+                    "implies" => c.implies(x, y),
+                    other => panic!("HARNESS: unknown op {other}"),
+                }))
+            }
+            Call::Ite(cnd, a, b) if via_builder => {
+                let (cn, x, y) = (arg(*cnd), arg(*a), arg(*b));
+                Some(ctx.build(|c| c.ite(cn, x, y)))
+            }
+            Call::ArrConst(a, iw) if via_builder => {
+                let x = arg(*a);
+                Some(ctx.build(|c| c.array_const(x, *iw)))
+            }
+            Call::ArrStore(a, i, d) if via_builder => {
+                let (x, y, z) = (arg(*a), arg(*i), arg(*d));
+                Some(ctx.build(|c| c.array_store(x, y, z)))
+            }
+            Call::ArrRead(a, i) if via_builder => {
+                let (x, y) = (arg(*a), arg(*i));
+                Some(ctx.build(|c| c.array_read(x, y)))
+            }
             Call::Un(op, a) => Some(match *op {
                 "not" => ctx.not(arg(*a)),
                 _ => ctx.negate(arg(*a)),
